@@ -139,7 +139,19 @@ func (e *Exec) runPath(pkg *ssa.Package, fn *ssa.Function, prefix []Decision) (r
 		res.Inputs = e.inputs
 	}()
 	if init := pkg.Func("init"); init != nil {
-		e.callSSA(nil, 0, init, nil, nil)
+		if e.ld.initAllowed(pkg) {
+			e.callSSA(nil, 0, init, nil, nil)
+		} else {
+			// package init skipped (harness sets the globals it needs): still
+			// initialise the imported packages whose init is executed
+			for _, imp := range pkg.Pkg.Imports() {
+				if ip := e.ld.prog.Package(imp); ip != nil {
+					if f := ip.Func("init"); f != nil {
+						e.callSSA(nil, 0, f, nil, nil)
+					}
+				}
+			}
+		}
 	}
 	e.callSSA(nil, 0, fn, nil, nil)
 	return
